@@ -318,6 +318,10 @@ func (h Header) MarshalTo(buf []byte) (n int, err error) { //nolint:cyclop
 				n += copy(buf[n:], extension.payload)
 			}
 		default: // RFC3550 Extension
+			if len(h.Extensions) == 0 {
+				// e.g. after DelExtension(0): an empty extension block
+				break
+			}
 			extlen := len(h.Extensions[0].payload)
 			if extlen%4 != 0 {
 				// the payload must be in 32-bit words.
@@ -363,7 +367,9 @@ func (h Header) MarshalSize() int {
 				extSize += 2 + len(extension.payload)
 			}
 		default:
-			extSize += len(h.Extensions[0].payload)
+			if len(h.Extensions) > 0 {
+				extSize += len(h.Extensions[0].payload)
+			}
 		}
 
 		// extensions size must have 4 bytes boundaries
